@@ -46,8 +46,12 @@ def prepare(name):
     return wt
 
 
+_PREP = __import__('threading').Lock()
+
+
 def run(name):
-    wt = prepare(name)
+    with _PREP:
+        wt = prepare(name)
     base = open(os.path.join(wt, ".rf_base")).read().split()[0]
     if base == "FAILED":
         return name, "PATCH-DOES-NOT-APPLY"
